@@ -106,6 +106,10 @@ def run(ctx, col, tier):
     col.guard(r_src, ctx, col)
     col.guard(r_once, ctx, col)
     col.guard(r_pure, ctx, col)
+    col.guard(r_passthrough, ctx, col)
+    from ..rules import narrowing
+    narrowing.run(ctx, col, (f"{IO}.read_swc", f"{IO}.parse_swc", "swcgeom.core.tree.Tree.from_swc", "swcgeom.core.tree.Tree.from_data_frame",
+                             "swcgeom.core.swc_utils.normalizer.reset_index_", "swcgeom.core.swc_utils.normalizer.sort_nodes_"))
     col.guard(r_capture, ctx, col)
     from ..rules import rootcmp
     rootcmp.check(ctx, col, "R-ROOTCMP", ("swcgeom.core.swc_utils.io", "swcgeom.core.swc_utils.normalizer",
@@ -183,6 +187,41 @@ def r_capture(ctx, col, rule="R-CAPTURE"):
     col.text_group(rule, p.qualname, p, [
         ("converter i receives capture group i + 1 and fills column i",
          ["for i, trans in enumerate(transforms): vals[i].append(trans(match.group(i + 1)))"], "converter")], fixed=("transforms", "vals"))
+
+
+def r_passthrough(ctx, col):
+    """Tree.from_swc hands the table and the comment list it read to the constructor as they are."""
+    repo = ctx.repo
+    d = repo.get_def("swcgeom.core.tree.Tree.from_swc")
+    col.text_group("R-HDR", d.qualname, d, [
+        ("the table and the comment list come from the reader", ["df, comments = read_swc(swc_file, **kwargs)"], "pt:read"),
+        ("and go to the constructor unchanged", ["return cls.from_data_frame(df, source=source, comments=comments)"], "pt:build")],
+        fixed=("read_swc", "swc_file", "kwargs", "cls"))
+    # def-use: nothing re-binds, slices or edits what was read before it is handed on
+    got = [a for a in own_nodes(d) if isinstance(a, ast.Assign) and isinstance(a.targets[0], ast.Tuple) and isinstance(a.value, ast.Call)
+           and (dotted(a.value.func) or "").endswith("read_swc")]
+    if len(got) == 1:
+        names_ = [e.id for e in got[0].targets[0].elts if isinstance(e, ast.Name)]
+        for nm in names_:
+            for n in own_nodes(d):
+                hit = None
+                if isinstance(n, (ast.Assign, ast.AugAssign)) and n is not got[0]:
+                    tg = n.targets if isinstance(n, ast.Assign) else [n.target]
+                    for t in tg:
+                        b = t
+                        while isinstance(b, (ast.Subscript, ast.Attribute)):
+                            b = b.value
+                        if isinstance(b, ast.Name) and b.id == nm:
+                            hit = n
+                if isinstance(n, ast.Delete) and any(isinstance(x, ast.Name) and x.id == nm for t in n.targets for x in ast.walk(t)):
+                    hit = n
+                if isinstance(n, ast.Call) and isinstance(n.func, ast.Attribute) and isinstance(n.func.value, ast.Name) and n.func.value.id == nm \
+                        and n.func.attr in ("pop", "remove", "clear", "insert", "append", "extend", "drop", "sort", "reverse"):
+                    hit = n
+                if hit is not None:
+                    col.bad("R-HDR", d.qualname, d.loc(hit), "what the reader returned reaches the tree unchanged",
+                            f"`{norm_src(hit)[:80]}` changes `{nm}` between reading and building the tree: rows / comment lines of the file are dropped or altered "
+                            f"after they were read", stmt=f"pt:edit:{nm}", definite=True)
 
 
 def r_pure(ctx, col):
